@@ -44,10 +44,34 @@ def fuse_two_phases(phase_name, phase1, phase2, should_disambiguate_name=None):
             should_disambiguate_name = _is_not_state_variable
 
         from pymbolic.imperative.transform import (
-            disambiguate_identifiers, fuse_statement_streams_with_unique_ids)
-        statements2, subst2 = disambiguate_identifiers(
-                phase1.statements, phase2.statements,
-                should_disambiguate_name)
+            fuse_statement_streams_with_unique_ids)
+
+        def get_identifiers(statements):
+            result = set()
+            for stmt in statements:
+                result |= stmt.get_read_variables()
+                result |= stmt.get_written_variables()
+                # A loop identifier that no expression mentions is in neither
+                # of these sets, but the loop still sets (and unsets) it.
+                result |= {ident for ident, _, _ in getattr(stmt, "loops", [])}
+            return result
+
+        identifiers1 = get_identifiers(phase1.statements)
+        identifiers2 = get_identifiers(phase2.statements)
+
+        from pymbolic import var
+        from pytools import UniqueNameGenerator
+        var_name_gen = UniqueNameGenerator(identifiers1 | identifiers2)
+        subst2 = {
+                name: var(var_name_gen(name))
+                for name in sorted(identifiers1 & identifiers2)
+                if should_disambiguate_name(name)}
+
+        from pymbolic.mapper.substitutor import (
+            SubstitutionMapper, make_subst_func)
+        subst_mapper = SubstitutionMapper(make_subst_func(subst2))
+        statements2 = [
+                stmt.map_expressions(subst_mapper) for stmt in phase2.statements]
 
         # map_expressions() (used above) renames neither the condition of a
         # statement nor its loop identifiers.
